@@ -74,8 +74,8 @@ CHECKS = {
     ),
     'C06': dict(
         level='exploration',
-        units=[U('^TestC06$', (8, 3000), (14, 25000)), U('^TestC06_ArbitraryWeights$', (2, 10000), (2, 100000)), U('^TestC06_FarIndexes$', (2, 1500), (2, 60000))],
-        essential_labels=['layout:1', 'layout:2', 'layout:3', 'omit-mapping', 'prefix', 'concatenation', 'non-empty-receiver', 'both-sides', 'block:zero', 'variant:exact', 'target:collow', 'target:colhigh', 'target:paginated', 'source:paginated', 'arbitrary-weights', 'weight-changed-by-transform', 'weight-vanishes', 'far-indexes', 'index-delta-beyond-int32', 'second-generation', 'encoding-after-weights-underflowed-to-zero'],
+        units=[U('^TestC06$', (8, 3000), (14, 25000)), U('^TestC06_ArbitraryWeights$', (2, 10000), (2, 100000)), U('^TestC06_FarIndexes$', (2, 1500), (2, 60000)), U('^TestC06_ObservedContent$', (2, 10000), (3, 300000))],
+        essential_labels=['layout:1', 'layout:2', 'layout:3', 'omit-mapping', 'prefix', 'concatenation', 'non-empty-receiver', 'both-sides', 'block:zero', 'variant:exact', 'target:collow', 'target:colhigh', 'target:paginated', 'source:paginated', 'arbitrary-weights', 'weight-changed-by-transform', 'weight-vanishes', 'far-indexes', 'index-delta-beyond-int32', 'second-generation', 'encoding-after-weights-underflowed-to-zero', 'observed-content', 'merge:same-kind-other-limit'],
         assumptions=COMMON_ASSUMPTIONS + ["dyadic bounded weights survive the documented (w+1)-1 transform exactly; arbitrary weights are checked bit-for-bit against (w+1)-1 without being summed"],
     ),
     'C07': dict(
@@ -92,14 +92,14 @@ CHECKS = {
     ),
     'C09': dict(
         level='exploration',
-        units=[U('^TestC09_History$', (6, 5000), (8, 40000)), U('^TestC09_ArbitraryWeights$', (3, 8000), (4, 50000)), U('^TestC09_HandBuilt$', (3, 8000), (4, 50000))],
-        essential_labels=['mode:A', 'mode:B', 'mode:C', 'shape:sparse', 'shape:contiguous', 'shape:both', 'nil-store-message', 'negative-offset', 'custom-offset', 'contiguous-run>=63', 'target:collow', 'target:paginated', 'source:paginated', 'source:sparse', 'cleared-then-refilled'],
+        units=[U('^TestC09_History$', (6, 5000), (8, 40000)), U('^TestC09_ArbitraryWeights$', (3, 8000), (4, 50000)), U('^TestC09_HandBuilt$', (3, 8000), (4, 50000)), U('^TestC09_ObservedContent$', (2, 10000), (3, 300000))],
+        essential_labels=['mode:A', 'mode:B', 'mode:C', 'shape:sparse', 'shape:contiguous', 'shape:both', 'nil-store-message', 'negative-offset', 'custom-offset', 'contiguous-run>=63', 'target:collow', 'target:paginated', 'source:paginated', 'source:sparse', 'cleared-then-refilled', 'mode:observed-content', 'merge:same-kind-other-limit'],
         assumptions=COMMON_ASSUMPTIONS + ["google.golang.org/protobuf Marshal/Unmarshal/Equal are trusted"],
     ),
     'C10': dict(
         level='exploration',
         units=[U('^TestC10$', (12, 1000, 50), (14, 8000, 80)), U('^TestC10_LongChains$', (3, 60), (2, 1500))],
-        essential_labels=['op:add', 'op:bad', 'op:merge', 'op:decmerge', 'op:copy', 'op:clear', 'op:reweight', 'op:encdec', 'op:changemapping', 'op:fromdata', 'long-chain:absorb-merge', 'long-chain:random-merge', 'long-chain:absorb-add', 'long-chain:decode-merge', 'rejected-add', 'zero-weight-add', 'non-dyadic-phase', 'store:dense', 'store:sparse', 'store:paginated'],
+        essential_labels=['op:add', 'op:bad', 'op:badmerge', 'op:merge', 'op:decmerge', 'op:copy', 'op:clear', 'op:reweight', 'op:encdec', 'op:changemapping', 'op:fromdata', 'long-chain:absorb-merge', 'long-chain:random-merge', 'long-chain:absorb-add', 'long-chain:decode-merge', 'rejected-add', 'zero-weight-add', 'non-dyadic-phase', 'store:dense', 'store:sparse', 'store:paginated'],
         assumptions=COMMON_ASSUMPTIONS + ["sum bound (8+2k)*2^-52*sum|v*w| plus a few subnormal ulps, k = number of reweight/rescale/decode/merge steps (DESIGN §2 C10)", "after a ChangeMapping nothing is compared with == (bin weights are no longer dyadic)", "values within [1e-50,1e50] so that unit changes keep them far inside every mapping's range"],
     ),
     'C11': dict(
